@@ -1,0 +1,11 @@
+//go:build verif
+
+// Contracts for the deductive checks under /verif (comment-only; compiled only with -tags verif).
+
+package log
+
+// Crit logs and terminates the process (os.Exit): it never returns to the caller.
+//@ func Crit
+//@   trusted
+//@   ensures false
+//@   assigns nothing
